@@ -103,7 +103,7 @@ pub fn modulus_of(field: &str) -> BigUint {
         _ => <BlsFp as CircuitField>::modulus(),
     }
 }
-fn limb_params(field: &str) -> (u32, u32) {
+pub fn limb_params(field: &str) -> (u32, u32) {
     match field {
         "c25519p" => (<MEP as FieldEmulationParams<F, C25519P>>::LOG2_BASE, <MEP as FieldEmulationParams<F, C25519P>>::NB_LIMBS),
         "c25519s" => (<MEP as FieldEmulationParams<F, C25519S>>::LOG2_BASE, <MEP as FieldEmulationParams<F, C25519S>>::NB_LIMBS),
@@ -292,6 +292,7 @@ pub fn gen_case(rng: &mut Prng, op: &str) -> OpCase {
         // operands of different declared widths (different limb counts)
         if matches!(parts[1], "add" | "sub" | "mul" | "lower_than" | "is_equal" | "assert_equal" | "div_rem" | "select" | "mod_exp") && bins.len() == 2 && rng.chance(1, 2) {
             let nb1 = *rng.pick(&[1u32, 8, 64, 96, 97, 192, 193, 256, 512]);
+            let mut p_skip_regen = false;
             if p.len() < 2 {
                 p.push(0);
             }
@@ -300,7 +301,26 @@ pub fn gen_case(rng: &mut Prng, op: &str) -> OpCase {
             if matches!(parts[1], "add" | "sub" | "lower_than" | "is_equal") && rng.chance(1, 3) {
                 bins[0] = (BigUint::one() << nb) - 1u32;
             }
-            let keep = bins[1].bits() <= nb1 as u64 && rng.chance(1, 2);
+            // operands that agree on the limbs they share and differ only in the limbs one of them
+            // has in excess (the gadget's base is 2^96)
+            if matches!(parts[1], "assert_equal" | "is_equal" | "lower_than" | "sub") && rng.chance(1, 3) {
+                let (lo, hi) = (nb.min(nb1), nb.max(nb1));
+                let shared = 96 * lo.div_ceil(96);
+                if hi > shared {
+                    let low = big_class(rng, lo);
+                    let extra = (BigUint::from_bytes_le(&rng.bytes(40)) % (BigUint::one() << (hi - shared))).max(BigUint::one());
+                    let wide = &low + (extra << shared);
+                    if nb1 > nb {
+                        bins = vec![low, wide];
+                    } else {
+                        bins = vec![wide, low];
+                    }
+                    let op0 = bins[0].clone();
+                    let _ = op0;
+                    p_skip_regen = true;
+                }
+            }
+            let keep = p_skip_regen || (bins[1].bits() <= nb1 as u64 && rng.chance(1, 2));
             if !keep {
                 bins[1] = match rng.below(4) {
                     0 => (BigUint::one() << nb1) - 1u32,
